@@ -16,17 +16,23 @@ FullObs(o) == [k |-> o.k, v |-> Fld(o, "v", ZZero), rv |-> Fld(o, "rv", "?"), v2
                t |-> Fld(o, "t", 0), txt |-> Fld(o, "txt", <<>>), bases |-> Fld(o, "bases", <<>>)]
 Full(R) == [op |-> R.op, form |-> Fld(R, "form", ""), a |-> Fld(R, "a", ZZero), ra |-> Fld(R, "ra", "w"),
             b |-> Fld(R, "b", ZZero), rb |-> Fld(R, "rb", "w"), c |-> Fld(R, "c", ZZero), rc |-> Fld(R, "rc", "w"),
-            base |-> Fld(R, "base", 10), txt |-> Fld(R, "txt", <<>>), o |-> FullObs(R.o)]
-WellFormed(C) == IsZ(C.a) /\ IsZ(C.b) /\ IsZ(C.c) /\ IsZ(C.o.v) /\ IsZ(C.o.v2)
+            base |-> Fld(R, "base", 10), txt |-> Fld(R, "txt", <<>>), o |-> FullObs(R.o),
+            \* the operands after the operation; a line without them (operands that could not be re-read) asserts nothing
+            aa |-> Fld(R, "aa", Fld(R, "a", ZZero)), raa |-> Fld(R, "raa", "?"), ra0 |-> Fld(R, "ra0", ""),
+            ab |-> Fld(R, "ab", Fld(R, "b", ZZero)), rab |-> Fld(R, "rab", "?"), rb0 |-> Fld(R, "rb0", ""),
+            ac |-> Fld(R, "ac", Fld(R, "c", ZZero)), rac |-> Fld(R, "rac", "?"), rc0 |-> Fld(R, "rc0", "")]
+WellFormed(C) == IsZ(C.a) /\ IsZ(C.b) /\ IsZ(C.c) /\ IsZ(C.o.v) /\ IsZ(C.o.v2) /\ IsZ(C.aa) /\ IsZ(C.ab) /\ IsZ(C.ac)
 Verdict(n) ==
   LET C == Full(Lines[n]) IN
   IF ~WellFormed(C) THEN (IF PrintT(ToJson([l |-> n, key |-> "MALFORMED"])) THEN "bad" ELSE "bad")
   ELSE LET e == Expected(C) IN
        IF e.k = "ood" THEN (IF PrintT(ToJson([l |-> n, key |-> "OOD"])) THEN "bad" ELSE "bad")
-       ELSE IF Match(e, C.o) THEN "ok"
-       ELSE IF PrintT(ToJson([l |-> n, key |-> FindingKey(C, e),
-                              exp |-> [k |-> e.k, v |-> e.v, v2 |-> e.v2, t |-> e.t, txt |-> e.txt, ename |-> e.ename]]))
-            THEN "bad" ELSE "bad"
+       ELSE LET resultOk == Match(e, C.o)
+                operandsOk == OperandsPreserved(C)
+                r1 == resultOk \/ PrintT(ToJson([l |-> n, key |-> FindingKey(C, e),
+                                                 exp |-> [k |-> e.k, v |-> e.v, v2 |-> e.v2, t |-> e.t, txt |-> e.txt, ename |-> e.ename]]))
+                r2 == operandsOk \/ PrintT(ToJson([l |-> n, key |-> MutationKey(C, e)]))     \* a second record: independent of the result
+            IN IF r1 /\ r2 /\ resultOk /\ operandsOk THEN "ok" ELSE "bad"
 Init == l \in 1..Len(Lines) /\ v = "todo"
 Next == v = "todo" /\ v' = Verdict(l) /\ UNCHANGED l
 Spec == Init /\ [][Next]_<<l, v>>
